@@ -22,18 +22,22 @@ func verifKeyring(mode int) openpgp.EntityList {
 	return kr
 }
 
-// VerifC16: a package signed (debsig style) by key `signer` in role "origin" is loaded and verified with the given
+// VerifC16: a package signed (debsig style) by key `signer` in role `role` is loaded and verified with the given
 // keyring for role `ask`.  tamper (after signing): 0 none, 1 a byte of the control paragraph, 2 a byte of the data
 // payload, 3 the signature member replaced by one over other bytes.  decoy: 0 none, 1 a second control.* member
 // (other maintainer), 2 a second data.* member.  Success of load + verification implies: the role is present,
 // the signer is in the keyring, nothing was altered, there is no decoy - and the control fields and payload the
 // loader exposes are the signed ones.  attempts > 1 repeats the whole thing (native map iteration order varies).
-func VerifC16(signer, keyring int, ask string, tamper, decoy int, maint string, payload string, nb byte, attempts int, second int) int {
+// dext: encoding of the data member; interleave: another package (same encodings, other payload) is loaded between
+// loading this one and reading its payload.
+// role: the role the package is signed in (member "_gpg"+role); ask: the role verification is asked for.
+func VerifC16(signer, keyring int, ask string, tamper, decoy int, maint string, payload string, nb byte, attempts int, second int, role string, dext string, interleave bool) int {
 	ctlText := func(m string) string {
 		return "Package: p\nVersion: 1\nArchitecture: all\nMaintainer: " + m + "\n"
 	}
 	ctar := verifCompress(".gz", verifTar([]string{"./control"}, []string{ctlText(maint)}))
-	dtar := verifTar([]string{"./f"}, []string{payload})
+	dtar := verifCompress(dext, verifTar([]string{"./f"}, []string{payload}))
+	other := verifAr([]string{"debian-binary", "control.tar.gz", "data.tar" + dext}, []string{"2.0\n", ctar, verifCompress(dext, verifTar([]string{"./g"}, []string{payload + "y"}))})
 	sig := verifDetachSign("2.0\n"+ctar+dtar, signer)
 	evilMaint := maint + "x"
 	if tamper == 1 {
@@ -47,20 +51,25 @@ func VerifC16(signer, keyring int, ask string, tamper, decoy int, maint string, 
 		if len(payload) == 0 || payload[0] == nb {
 			return 0
 		}
-		dtar = verifTar([]string{"./f"}, []string{string([]byte{nb}) + payload[1:]})
+		dtar = verifCompress(dext, verifTar([]string{"./f"}, []string{string([]byte{nb}) + payload[1:]}))
 	}
 	if tamper == 3 {
 		sig = verifDetachSign("2.0\n"+ctar+dtar+"x", signer)
 	}
-	mn := []string{"debian-binary", "control.tar.gz", "data.tar", "_gpgorigin"}
+	mn := []string{"debian-binary", "control.tar.gz", "data.tar" + dext, "_gpg" + role}
 	md := []string{"2.0\n", ctar, dtar, sig}
 	if decoy == 1 {
 		mn = append(mn, "control.tar")
 		md = append(md, verifTar([]string{"./control"}, []string{ctlText(evilMaint)}))
 	}
 	if decoy == 2 {
-		mn = append(mn, "data.tar.gz")
-		md = append(md, verifCompress(".gz", verifTar([]string{"./f"}, []string{payload + "x"})))
+		if dext == ".gz" {
+			mn = append(mn, "data.tar")
+			md = append(md, verifTar([]string{"./f"}, []string{payload + "x"}))
+		} else {
+			mn = append(mn, "data.tar.gz")
+			md = append(md, verifCompress(".gz", verifTar([]string{"./f"}, []string{payload + "x"})))
+		}
 	}
 	if decoy == 3 {
 		// the signed control tarball is kept under a name that is no tarball name while a foreign one takes its place
@@ -80,20 +89,25 @@ func VerifC16(signer, keyring int, ask string, tamper, decoy int, maint string, 
 		}
 		// what the loader exposes as payload (read before verification: CheckDebsig rewinds and consumes the
 		// member readers the tar stream is built on)
+		if interleave {
+			if d2, err := Load(bytes.NewReader([]byte(other)), "y.deb"); err != nil || d2 == nil {
+				return 13
+			}
+		}
 		listing, listed := verifListTar(d.Data)
 		s, err := d.CheckDebsig(verifKeyring(keyring), ask)
 		if err != nil {
 			if s != nil {
 				return 2
 			}
-			if tamper == 0 && decoy == 0 && inKeyring && ask == "origin" {
+			if tamper == 0 && decoy == 0 && inKeyring && ask == role {
 				return 3 // a good signature by a keyring key was refused
 			}
 			d.Close()
 			continue
 		}
 		// verification succeeded
-		if ask != "origin" {
+		if ask != role {
 			return 4
 		}
 		if !inKeyring {
